@@ -334,6 +334,8 @@ func (a *Alpha) primParseInputs(k Kind) []inClass {
 			out = append(out, inClass{"the text null", "null", false})
 			// ...or a list in another notation: still one string
 			out = append(out, inClass{"text that reads as a JSON list", "[1]", false})
+			// ...or holds what a shell would expand: text is text
+			out = append(out, inClass{"text with a shell-style reference", "a${b}", false})
 		}
 		out = append(out, inClass{"only-under-a-key-of-other-letter-case", caseVariant{valid}, false})
 		return out
@@ -351,7 +353,8 @@ func (a *Alpha) primParseInputs(k Kind) []inClass {
 	}
 	switch k {
 	case KStr:
-		out = append(out, inClass{"alt", 7, false}, inClass{"falsy", "0", false})
+		// "héllo": 6 bytes, 5 characters — the length tests count bytes (fails Max(5)), whatever the text looks like
+		out = append(out, inClass{"alt", 7, false}, inClass{"falsy", "0", false}, inClass{"multi-byte at the bound", "héllo", false})
 	case KInt:
 		out = append(out, inClass{"alt", "4", false}, inClass{"uncoercible", "abc", false}, inClass{"falsy", 0, false})
 	case KFloat:
@@ -391,6 +394,9 @@ func (a *Alpha) primValidateInputs(k Kind) []inClass {
 	out := []inClass{{"valid", primValue(k, VValid), false}, {"zero", reflect.Zero(primType(k)).Interface(), false}, {"fail1", primValue(k, VFail1), false}}
 	if k != KBool {
 		out = append(out, inClass{"fail2", primValue(k, VFail2), false}, inClass{"failB", primValue(k, VFailB), false})
+	}
+	if k == KStr {
+		out = append(out, inClass{"multi-byte at the bound", "héllo", false})
 	}
 	if k == KFloat {
 		out = append(out, inClass{"nan", math.NaN(), false}) // NaN satisfies no comparison
